@@ -61,6 +61,8 @@ type Ctx struct {
 	nFuncs      int
 	rangeMemo   map[*ssa.Function][4]int64
 	roleMemo    map[string]*ssa.Function
+	mapMemo     map[*ssa.Global]map[int64]int64
+	proverPre   func(p *proverCtx)
 	assignDepth int
 	rangeBusy   map[*ssa.Function]bool
 	lenMemo     map[any][2]int64
